@@ -127,6 +127,12 @@ def replay_gen(payload):
                 elif kind == "bp":
                     if "bp" not in bpcache:
                         bpcache["bp"] = BeliefPropagation(model)
+                    # the engine is shared by all questions on this instance; one question in three follows an explicit
+                    # (max-)calibration of the same object
+                    pre = [None, "max_calibrate", "calibrate"][(ci // 2) % 3]
+                    feat["after"] = pre or ""
+                    if pre:
+                        getattr(bpcache["bp"], pre)()
                     res = bpcache["bp"].map_query(**kw)
                 else:
                     df = pd.DataFrame([{conc.vn[v]: conc.sn[v][s] for v, s in ev.items()}])
